@@ -8,7 +8,7 @@ import shutil
 import tempfile
 from pathlib import Path
 
-from ..core.runner import HarnessError
+from ..core.runner import HarnessError, VERIF
 from ..ref import formats as F
 from . import c05
 
@@ -45,7 +45,7 @@ def probe_lines(fmt, with_grain_species):
             ("4,H+,E,,H,,,,>5.5e3,NONE,3.92d-13*invTe**0.6353d0*n(idx_H)", "krome:nidx"),
             # a user parameter that only occurs inside a derived variable, and a variable built on another variable
             ("@common: user_fs", "krome:common-in-var"),
-            ("@var: fshield = exp(-2.5d0*user_fs)", "krome:var-uses-common"),
+            ("@var: fshield = exp(-2.5*user_fs)", "krome:var-uses-common"),
             ("@var: fshield2 = fshield*foo", "krome:var-uses-var"),
             ("5,H2,,,H,H,,,NONE,NONE,2.0d-10*fshield2", "krome:rate-uses-var-chain"),
         ]
@@ -156,6 +156,8 @@ def configs(tier):
                         for th in THERMAL:
                             out.append({"formats": list(fs), "model": m, "backend": b, "shielding": sh, "cooling": th, "grainspec": bool(i % 2)})
                             i += 1
+    for i_, c_ in enumerate(out):
+        c_["link"] = (tier != "quick") or i_ % 2 == 0
     # single-line probes: a symbol must be declared because the reaction that uses it is there, not because some
     # other reaction type of the same file happens to register it.  Every data line alone; lines with ice or grain
     # species under every dust model, gas-phase lines without one
@@ -185,7 +187,7 @@ def build_network(cfg):
     from naunet.network import _reaction_factory, supported_reaction_class
 
     kw = dict(grain_model=cfg["model"], shielding=dict(cfg["shielding"]), cooling=list(cfg["cooling"]))
-    req = ["H", "H2", "CO", "N2"]
+    req = ["H", "H2", "CO", "N2", "C", "N", "O"]  # every element of the probe species also as an atom (renormalisation has a row for it)
     if cfg["cooling"]:
         req += ["e-", "H+"]
     kw["required_species"] = req
@@ -308,6 +310,30 @@ def run_cfg(cfg):
                 else:
                     other += 1
                     others.append(f"{rel}: {re.sub(r'[0-9]+', 'N', msg)[:120]}")
+        # closed program: everything the translation units reference is defined exactly once somewhere among them
+        if cfg.get("link") and not viols and not others and cfg["backend"] != "cusparse":
+            (d / "verif_main.cpp").write_text("int main() { return 0; }\n")
+            extra = [str(VERIF / "cxx" / "stub_cvode.cpp")] if cfg["backend"] != "rosenbrock4" else []
+            srcs = [rel for rel in sorted(files) if rel.startswith("src/") and rel.endswith(".cpp")]
+            rc, so, se = runcmd([GXX, "-std=c++17", "-w", "-O0", "-I", str(SHIM), "-I", "include", *srcs, *extra, "verif_main.cpp", "-o", "linked"], cwd=str(d), timeout=600)
+            nfiles += 1
+            if rc != 0:
+                seen = set()
+                for line in se.splitlines():
+                    m = re.search(r"(undefined reference to|multiple definition of) [`'‘]([^'’]+)['’]", line)
+                    if not m:
+                        continue
+                    ident = re.sub(r"\(.*$", "", m.group(2))
+                    kind = "undefined" if m.group(1).startswith("undefined") else "defined-twice"
+                    if SHIM_NAME.match(ident.split("::")[-1]) or ident.startswith(("CVode", "verif_")):
+                        raise HarnessError(f"shim gap at link time: {line} ({label})")
+                    if (kind, ident) in seen:
+                        continue
+                    seen.add((kind, ident))
+                    owner = cfg["model"] or "none"
+                    viols.append((f"C10:{kind}:{ident}:{owner}:link", f"{label}: linking the rendered translation units: {line.strip()[-200:]}", cfg))
+                if not seen:
+                    raise HarnessError(f"link step failed without a symbol diagnostic ({label}): {se[-400:]}")
         return label, nfiles, viols, refused, others
     finally:
         shutil.rmtree(d, ignore_errors=True)
@@ -330,6 +356,7 @@ def run(ctx):
         ctx.absorb(viols)
     ctx.assumptions += [
         "the SUNDIALS/Boost API is a hand-written shim (no SUNDIALS/Boost in the image); a diagnostic naming a shim/libc identifier is a harness error, never a violation",
+        "for the full probe networks (quick: every second configuration) the translation units are also compiled and linked with an empty main and trivial CVODE entry points: an undefined or doubly defined symbol of the generated code is a violation (closed program)",
         "only diagnostics about undeclared / redeclared / redefined names are judged here; other compiler errors are counted (other_diagnostics) and belong to C05/C16",
         "the pybind11 block of naunet.h / naunet.cpp is type-checked with -DPYMODULE against a stand-in for pybind11 (every &Class::member named in a .def must exist); the cuSPARSE sources are checked as host C++ (CUDA qualifiers defined away, kernel launches rewritten to a launcher call, CUDA/cuSPARSE API names from the shim)",
         "combinations the generator refuses in Python (reaction type not implemented by the grain model) are recorded as refused and left out of the probe network",
